@@ -23,5 +23,22 @@ ASSUME \A i \in 1..Len(AllLayouts) : LayoutOK(AllLayouts[i])
 ASSUME \A i \in 1..Len(AllLayouts) : \E v \in 1..3 : Len(AllLayouts[i].vars[v].shape) = 2
 ASSUME \A i \in 1..Len(AllLayouts) : \E p \in 1..5 : Lt(AllLayouts[i].a1[p], Zero)
 
+\* replay of one stored scenario: the generated module defines Script (a sequence of action records as exported in the
+\* histories) and TLC recomputes the observables along exactly that history
+Do(e) == CASE e.n = "set_val" -> SetValScalar(e.c)
+           [] e.n = "set_val_arr" -> \E k \in 1..2 : Arr(k, Len(x)) = e.arr /\ SetValArr(k)
+           [] e.n = "set_val_idx" -> SetValIdx(e.idx, e.c)
+           [] e.n = "set_vec" -> SetVec(e.src)
+           [] e.n = "iadd" -> IAdd(e.src)
+           [] e.n = "isub" -> ISub(e.src)
+           [] e.n = "iadd_const" -> IAddConst(e.c)
+           [] e.n = "imul" -> IMul(e.c)
+           [] e.n = "imul_vec" -> IMulVec
+           [] e.n = "add_scal_vec" -> AddScalVec(e.c, e.src)
+           [] e.n = "set_name" -> SetName(e.var, e.via, e.whole)
+           [] e.n = "set_var" -> SetVarIdx(e.var, e.idx, e.flat)
+           [] e.n = "scale_to_norm" -> ScaleToNorm(e.mode)
+           [] e.n = "scale_to_phys" -> ScaleToPhys
+
 Export == Len(hist) = Depth => PrintT(<<"EXP", ToJson([ly |-> ly, kind |-> kind, x0 |-> X0(N(L)), y0 |-> y, h |-> hist])>>)
 =============================================================================
